@@ -77,8 +77,9 @@ def enc_value(s):
     return int(p).to_bytes(8, "little") + int(st).to_bytes(8, "little")
 
 
-def dump_db(path, ids):
-    """The database file in the format of engine_driver.cpp's dump_db (an independent reader: Python's sqlite3)."""
+def dump_db(path, ids, hexvalues=False):
+    """The database file in the format of engine_driver.cpp's dump_db (an independent reader: Python's sqlite3).
+    hexvalues: values of any shape, printed as hex."""
     out = []
     try:
         con = sqlite3.connect(path)
@@ -91,7 +92,8 @@ def dump_db(path, ids):
                 "SELECT key_id, value, signature, built_at, computed_at, dependencies FROM rule_results"):
             value = value or b""
             deps = deps or b""
-            r = "dbrow %08d %s %d %d %d" % (kid(ids, names.get(key_id, b"")), vs(value), (sig or 0) & (2**64 - 1), computed_at, built_at)
+            r = "dbrow %08d %s %d %d %d" % (kid(ids, names.get(key_id, b"")), (hx(value) if value else "EMPTY") if hexvalues else vs(value),
+                                            (sig or 0) & (2**64 - 1), computed_at, built_at)
             for i in range(0, len(deps) - 7, 8):
                 x = int.from_bytes(deps[i:i + 8], "little")
                 r += " %s:%d" % (str(kid(ids, names[x >> 2])) if (x >> 2) in names else "?", x & 3)
@@ -152,10 +154,15 @@ def assign_names(rng, keys, p=0.85):
     return out
 
 
-def restrict_rule(line):
+def restrict_rule(line, keep_br=True):
     t = line.split(" ")
     f = collections.OrderedDict(x.split("=", 1) for x in t[2:])
     f["sig"] = "0"
+    if not keep_br and "br" in f:
+        s, a, b = f.pop("br").split(":")
+        extra = ",".join(x for x in (a, b) if x)
+        if extra:
+            f["follow"] = ",".join(x for x in (f.get("follow"), extra) if x)
     if "single" in f:
         f["follow"] = ",".join(x for x in (f.get("follow"), f.pop("single")) if x)
     order = ["sig", "obs", "req", "follow", "br", "disc"]
@@ -174,6 +181,106 @@ def gen_scenario(rng, sched=None):
     if rng.random() < 0.3:
         head.append("schema %d" % rng.choice([0, 2, 7, 2**31 - 1, 2**31, 2**32 - 1]))
     return head + L
+
+
+SHAPES = {0: "16-byte encoding", 1: "EMPTY (length 0)", 2: "one byte", 3: "all NUL, 1..20 bytes", 4: "4096 bytes"}
+
+
+def gen_shape_scenario(rng):
+    """Rules whose values have arbitrary shapes (capi_twin.cpp / capi_driver.c `shape` lines) and scripted is_result_valid answers,
+    with repeated (null) builds in the same engine and after reloading from the database."""
+    usedb = rng.random() < 0.75
+    L = enginelib.gen_history(rng, usedb=usedb, allow_rule_edits=False)
+    L = [restrict_rule(l, keep_br=False) if l.startswith("rule ") else l for l in L]
+    keys = sorted(int(l.split(" ")[1]) for l in L if l.startswith("rule "))
+    head = ["hexvalues 1"] + ([] if rng.random() < 0.2 else assign_names(rng, keys)) + ["idbase %d" % rng.choice(IDBASES)]
+    for k in keys:
+        if rng.random() < 0.55:
+            head.append("shape %d %d" % (k, rng.choice([1, 1, 1, 2, 3, 3, 4])))
+    vr = {}
+    out = []
+    for l in L:
+        if l.startswith("build "):
+            if rng.random() < 0.3:
+                k = rng.choice(keys)
+                vr[k] = 0 if vr.get(k, 1) else 1
+                out.append("validret %d %d" % (k, vr[k]))
+            out.append(l)
+            if rng.random() < 0.5:
+                out.append(l)                                  # null build, same engine
+            if rng.random() < 0.3:
+                out += ["restart", l]                          # null build after reloading (when a database is attached)
+            if vr and rng.random() < 0.3:
+                k = rng.choice(sorted(vr))
+                vr[k] = 1
+                out.append("validret %d 1" % k)
+        else:
+            out.append(l)
+    return head + out
+
+
+def scen_empty_value():
+    # the shape of seeded/C20-4: "stamp" has the empty value, "nul" a value of NUL bytes only, "big" 4 KiB, "one" one byte
+    return ["hexvalues 1", "db 1", "schema 7", nm(1, b"stamp"), nm(2, b"nul"), nm(4, b"big\0"), nm(5, b"\0one"), nm(7, b"top"), nm(0, b"in\0"),
+            "rule 0 sig=0 obs=1", "rule 1 sig=0 obs=0", "rule 2 sig=0 obs=0", "rule 4 sig=0 obs=0 req=0", "rule 5 sig=0 obs=0 req=1",
+            "rule 7 sig=0 obs=0 req=1,2,4,5",
+            "shape 1 1", "shape 2 3", "shape 4 4", "shape 5 2", "set 0 1",
+            "build 7", "build 7", "restart", "build 7", "validret 1 0", "build 7", "validret 1 1", "build 7",
+            "set 0 2", "build 7", "build 7", "validret 2 0", "validret 4 0", "restart", "build 7", "validret 2 1", "validret 4 1", "build 7"]
+
+
+def valid_effect_oracle(lines, c_trace):
+    """core.h, is_result_valid: "check if a previously computed result is still valid".  In a build that repeats the previous one
+    (same key, nothing set in between, same engine or a new engine over the same database) every stored result is still valid
+    unless the scripted answer says otherwise: if every is_result_valid answered true, no task may be created or started and
+    every scanned rule must be reported up to date; a rule whose callback answered false must run again."""
+    errs = []
+    # which builds repeat their predecessor
+    usedb, prev, repeat, n = False, None, {}, 0
+    dirty = True
+    for l in lines:
+        t = l.split(" ")
+        if t[0] == "db":
+            usedb = t[1] != "0"
+        elif t[0] in ("set", "validret", "rule", "schema", "force"):
+            dirty = True
+        elif t[0] == "restart":
+            if not usedb:
+                dirty = True
+        elif t[0] == "build":
+            n += 1
+            repeat[n] = (not dirty) and prev == t[1]
+            prev, dirty = t[1], False
+    cur, evs = None, {}
+    for l in c_trace:
+        t = l.split(" ")
+        if t[0] == "build":
+            cur = int(t[1])
+            evs[cur] = []
+        elif cur is not None:
+            evs[cur].append(t)
+    for b, ev in evs.items():
+        answers = {int(t[1]): int(t[2]) for t in ev if t[0] == "valid"}
+        created = set(int(t[1]) for t in ev if t[0] in ("create", "start"))
+        if any(t[0] in ("cycle", "error") for t in ev):
+            continue
+        for k, a in answers.items():
+            if a == 0 and k not in created:
+                errs.append("build %d: is_result_valid of rule %d answered false but the rule did not run again" % (b, k))
+        if repeat.get(b) and all(a == 1 for a in answers.values()):
+            if created:
+                errs.append("build %d repeats build %d with nothing changed and every is_result_valid answering true, but tasks of rules %s were created/started"
+                            % (b, b - 1, sorted(created)))
+            st = {}
+            for t in ev:
+                if t[0] == "status":
+                    st.setdefault(int(t[1]), []).append(int(t[2]))
+            for k, s in st.items():
+                if s[-1] != 1:
+                    errs.append("build %d (null build): rule %d reported status %s instead of up-to-date" % (b, k, s))
+            if not answers:
+                errs.append("build %d (null build): is_result_valid was not consulted at all" % b)
+    return errs
 
 
 # ------------------------------------------------------------------ running both sides
@@ -228,6 +335,58 @@ class Pair:
         return res
 
 
+def run_twin(pair, lines):
+    """The same scenario through capi_twin.cpp (C++ interface) and capi_driver.c (C interface): every line is comparable."""
+    ids = names_of(lines)
+    res = dict(errors=[], cpp=[], c=[], cpp_all=[], c_all=[])
+    for side, drv in (("cpp", "capi_twin"), ("c", "capi_driver")):
+        wd = os.path.join(pair.wd, "twin-" + side)
+        if os.path.isdir(wd):
+            for f in os.listdir(wd):
+                if f.startswith("snap-"):
+                    os.unlink(os.path.join(wd, f))
+        env = dict(os.environ)
+        env.pop("CAPI_TRACE", None)
+        rc, o, e, _, _ = enginelib.run_impl(pair.drv[drv], lines, wd, env=env)
+        res[side + "_all"] = o
+        if rc != 0:
+            res["errors"].append("%s exit status %s: %s" % (drv, rc, e[-400:]))
+        for l in o:
+            t = l.split(" ")
+            if t[0] == "UNSUPPORTED":
+                raise AssertionError("shape scenario uses something %s cannot express: %s" % (drv, l))
+            if t[0] == "dbsnap":
+                res[side] += dump_db(os.path.join(wd, "snap-%s.db" % t[1]), ids, hexvalues=True)
+            else:
+                res[side].append(l)
+    return res
+
+
+def run_shape(chk, pair, lines, mode, cov):
+    res = run_twin(pair, lines)
+    shapes = {int(l.split(" ")[1]): int(l.split(" ")[2]) for l in lines if l.startswith("shape ")}
+    asked = [l.split(" ") for l in res["cpp"] if l.startswith("valid ")]
+    nempty = sum(1 for t in asked if t[3] == "EMPTY")
+    cov["valid_calls_compared"] += len(asked)
+    cov["valid_calls_on_empty_value"] += nempty
+    cov["valid_calls_on_all_nul_value"] += sum(1 for t in asked if t[3] != "EMPTY" and set(t[3]) == {"0"})
+    cov["valid_calls_on_4k_value"] += sum(1 for t in asked if len(t[3]) == 8192)
+    cov["valid_calls_on_1_byte_value"] += sum(1 for t in asked if len(t[3]) == 2)
+    cov["valid_answers_false"] += sum(1 for t in asked if t[2] == "0")
+    cov["shape_builds"] += sum(1 for l in res["cpp"] if l.startswith("build "))
+    chk.count(("shape", "\n".join(lines)) if nempty else None)
+    report_diff(chk, lines, res, mode)
+    errs = valid_effect_oracle(lines, res["c"])
+    if errs:
+        chk.violation("capi-is-result-valid-effect", "the answer of is_result_valid does not have its documented effect through the C interface: %s" % errs[0],
+                      dict(mode=mode, scenario=lines, errors=errs[:10], c_trace=[l[:200] for l in res["c"][:300]]), found_input=True,
+                      broken="C20 oracle: is_result_valid consulted for every stored result (any value bytes), answer decides whether the rule runs")
+    ecpp = valid_effect_oracle(lines, res["cpp"])
+    if ecpp and not errs:
+        chk.notes.setdefault("valid_effect_oracle_on_cpp", []).append(ecpp[0])
+    return res
+
+
 def first_difference(a, b):
     for i in range(max(len(a), len(b))):
         x = a[i] if i < len(a) else "<end of trace>"
@@ -243,6 +402,10 @@ def classify(d):
         return "context", "a context / rule pointer handed to a C callback is not the one the client registered"
     if x == "dbrow" or y == "dbrow" or x == "dbepoch" or y == "dbepoch":
         return "persisted-state", "the database written through the C interface differs from the one written through the C++ interface"
+    if x == "valid" or y == "valid":
+        return "is-result-valid", "is_result_valid is not consulted exactly when the C++ twin's isResultValid is, with the same value bytes and answer"
+    if x == "status" or y == "status":
+        return "update-status", "update_status reports a different status kind than updateStatus"
     if x == "result" and y == "result":
         return "result", "llb_buildengine_build returns a different value than BuildEngine::build"
     if x == "provide" and y == "provide":
@@ -672,6 +835,14 @@ def run_params(chk, pair, cov):
         if name == "cycle" and not any(l.startswith("cycle 5 6 7 5") for l in res["c"]):
             chk.violation("capi-cycle", "cycle_detected did not report the keys of the cycle", dict(mode="param-cycle", scenario=L, c_trace=res["c"][:100]),
                           found_input=True, broken="C20 oracle: cycle keys")
+    # ---- values of every shape x is_result_valid answers (C++ twin: capi_twin.cpp)
+    L = scen_empty_value()
+    res = run_shape(chk, pair, L, "shape-empty-value", cov)
+    nstamp = sum(1 for l in res["c"] if l.startswith("valid 1 ") and l.endswith(" EMPTY"))
+    if nstamp < 3:
+        chk.violation("capi-is-result-valid-effect", "is_result_valid was consulted %d times for the rule whose stored value is empty (expected on every later scan)" % nstamp,
+                      dict(mode="shape-empty-value", scenario=L, c_trace=[l[:200] for l in res["c"][:300]]), found_input=True,
+                      broken="C20 oracle: is_result_valid consulted for every stored result")
     # ---- llb_rule_t.key: documented as "the key this rule computes", never read by the binding (recorded, not judged)
     L = scen_follow()
     res = pair.run(L, c_lines=["rulekey 1"] + L)
@@ -680,7 +851,7 @@ def run_params(chk, pair, cov):
 
 
 def run(chk):
-    drv = vlib.build_drivers(["engine_driver", "capi_driver"])
+    drv = vlib.build_drivers(["engine_driver", "capi_driver", "capi_twin"])
     model = vlib.model_bin("capi")
     chk.proof_gate()
     wd = os.path.join(vlib.WORK, "tmp", "c20", "%s-%d" % (chk.tier, chk.seed))
@@ -693,6 +864,7 @@ def run(chk):
     run_params(chk, pair, cov)
 
     nsync, nhook, nthr = chk.n(140, 2500), chk.n(50, 700), chk.n(12, 150)
+    nshape = chk.n(80, 1200)
     ntrace = chk.n(70, 500)
     for i in range(nsync):
         L = gen_scenario(rng)
@@ -710,6 +882,13 @@ def run(chk):
         if not any(l.startswith("db 1") for l in L):
             L = ["db 1"] + [l for l in L if not l.startswith("db ")]
         run_threads(chk, pair, L, cov)
+
+    for i in range(nshape):
+        L = gen_shape_scenario(rng)
+        res = run_shape(chk, pair, L, "shape", cov)
+        if i == 1:
+            chk.sample(dict(kind="value-shape scenario (C++ twin vs C)", scenario=[l if len(l) < 120 else l[:120] + "..." for l in L],
+                            valid_lines=[l[:100] for l in res["c"] if l.startswith("valid ")][:8]))
 
     # ---- model correspondence
     nbad = 0
@@ -736,7 +915,7 @@ def run(chk):
         if cov[k] == 0:
             chk.notes.setdefault("uncovered", []).append(k)
     chk.cov.update({k: int(v) for k, v in cov.items()})
-    chk.cov["traces_validated_against_impl"] = nsync + nhook + nthr
+    chk.cov["traces_validated_against_impl"] = nsync + nhook + nthr + nshape
     chk.cov["inexpressible_in_core_h"] = INEXPRESSIBLE
     chk.assumptions = ["x86-64 Linux: uintptr_t and uint64_t are 64 bits; llb_task_interface_t and core::TaskInterface have the same layout (two pointers)",
                        "the scenario language covers layered rule graphs (plus one hand-written cycle); tasks complete synchronously, at engine idle points (LLBUILD_VERIF notification points) or from racing threads",
@@ -746,14 +925,16 @@ def run(chk):
                       rule="random layered rule graphs x histories (set / restart / build, with and without database, random schema versions) from enginelib.gen_history restricted to core.h, "
                            "keys named by random byte strings (NUL-prefix families, empty, 5000 bytes, non-UTF-8) and input ids offset up to 2^64-456; each scenario run through the C++ and the C "
                            "interface and compared line by line (events, results, database rows read by independent readers); dedicated scenarios for force_change, must-follow, discovered "
-                           "dependency, schema version, reserved ids, cycles judged by the documentation. non-trivial = at least two builds and one delivered input; distinct by scenario text",
+                           "dependency, schema version, reserved ids, cycles judged by the documentation; value-shape scenarios (rules completing with the EMPTY value, one byte, "
+                           "all-NUL, 4 KiB; scripted is_result_valid answers; repeated builds in the same engine and after a database reload) through capi_twin.cpp and capi_driver.c, "
+                           "every line compared incl. the value shown to is_result_valid, plus the documented effect of its answer. non-trivial = at least two builds and one delivered input; distinct by scenario text",
                       trusted=["hand-written model coq/Engine/CApi.v tied by correspondence (raw C arguments through the extracted forward/backward)",
-                               "harness/cpp/engine_driver.cpp, harness/cpp/capi_driver.c, harness/py/enginelib.py", "extraction (ExtrOcamlBasic) + ocaml/vmodel_capi.ml",
+                               "harness/cpp/engine_driver.cpp, harness/cpp/capi_twin.cpp, harness/cpp/capi_driver.c, harness/py/enginelib.py", "extraction (ExtrOcamlBasic) + ocaml/vmodel_capi.ml",
                                "Python sqlite3 as the reader of the database written through the C interface"])
 
 
 def replay(chk, rp):
-    drv = vlib.build_drivers(["engine_driver", "capi_driver"])
+    drv = vlib.build_drivers(["engine_driver", "capi_driver", "capi_twin"])
     wd = os.path.join(vlib.WORK, "tmp", "c20", "replay")
     os.makedirs(wd, exist_ok=True)
     pair = Pair(drv, wd)
@@ -765,6 +946,9 @@ def replay(chk, rp):
     chk.count(("replay", "\n".join(L)))
     if mode == "threads":
         run_threads(chk, pair, L, cov)
+    elif mode.startswith("shape"):
+        res = run_shape(chk, pair, L, mode, cov)
+        print("\n".join(l[:160] for l in res["c"]))
     elif mode.startswith("param-force"):
         force = int(mode[-1])
         res = pair.run(L, only="c")
